@@ -27,7 +27,7 @@ from twisted.internet.base import DelayedCall
 from twisted.python.failure import Failure
 from zope.interface import directlyProvides, implementer
 
-from .kernel import SimCancelled
+from .kernel import HarnessError, SimCancelled, Violation
 
 OPEN, CLOSING, LOST = 'open', 'closing', 'lost'
 
@@ -256,6 +256,9 @@ def deliver(sim, pipe, n):
             for fd in due:
                 sim.call(dst.node, proto.fileDescriptorReceived, fd)
         sim.call(dst.node, proto.dataReceived, data)
+    except (Violation, HarnessError):
+        # raised by an oracle sitting on a hook inside the code under test: never swallowed
+        raise
     except (Exception, SimCancelled) as e:
         sim.exceptions.append((dst.name, 'dataReceived', e))
         sim.log('exc', dst.name, 'dataReceived', type(e).__name__)
